@@ -14,8 +14,8 @@ STUBS = ["input commit = attribute record with the fields the mapping reads; exp
          "dulwich.objects.Commit, compared field by field (its serialisation is compiled code and is not executed)",
          "parent lookup functions raise KeyError (parents are mapped through revision_id_foreign_to_bzr)"]
 ASSUMPTIONS = ["commit / author times are non-negative integers < 10^6, time zones within +-99999 seconds",
-               "message bytes are ASCII (the engine's UTF-8 model); author/committer/encoding are concrete values from a "
-               "small set; gpg signature and merge tags are arbitrary byte strings (merge tags are carried by a stand-in for "
+               "message bytes are ASCII (the engine's UTF-8 model); committer and encoding are concrete values from a small "
+               "set, the author is the committer or NAME <a@x> with a symbolic NAME of letters and spaces; gpg signature and merge tags are arbitrary byte strings (merge tags are carried by a stand-in for "
                "dulwich's Tag that only keeps the raw bytes); no extra headers",
                "metadata block: revision ids and parent ids contain no whitespace, property names contain no ':' / "
                "whitespace and are not empty-valued collisions, messages do not contain the '--BZR--' separator"]
@@ -32,8 +32,13 @@ def _commit(cx):
     c.id = b"a" * 40
     c.tree = b"b" * 40
     c.parents = [b"c" * 40][:cx.choose("nparents", 0, 1)]
-    c.committer = b"C <c@x>"
-    c.author = cx.pick("author", [b"C <c@x>", b"A <a@x>"])
+    # identities in git's form NAME SPACE <EMAIL>; the NAME is symbolic (letters and spaces: 'A  <a@x>' has a name ending
+    # in a space) and must come back byte for byte
+    c.committer = cx.pick("committer", [b"C <c@x>", b"C  <c@x>"])
+    if cx.choose("author_is_committer", 0, 1):
+        c.author = c.committer
+    else:
+        c.author = cx.bytes("author_name", cx.choose("author_name.len", 0, cx.p("lname", 2)), b"A ") + b" <a@x>"
     c.encoding = cx.pick("encoding", [None, b"utf-8"])
     c.commit_time = cx.int("commit_time", 0, cx.p("tmax"))
     c.author_time = cx.int("author_time", 0, cx.p("tmax"))
